@@ -17,9 +17,12 @@ FN = "solve_sat"
 AREAS = ["Sat"]
 
 ASSUMPTIONS = [
-    "the CDCL search itself (watches, 1-UIP analysis, VSIDS heap, reduce_db) is not modelled in Lean: its answers "
-    "are judged per input by the verified checkers and by the proved reference DPLL; no forall-input theorem about "
-    "the CDCL loop (design items cdcl_returns_models / cdcl_infeasible_sound / cdcl_fuel_suffices are open)",
+    "the CDCL search itself (watches, 1-UIP analysis, VSIDS heap, reduce_db) is mirrored by the executable model "
+    "Sat.Cdcl (R_trace: same status and same assignments in the same order on every explored input) but no "
+    "forall-input theorem is proved about that mirror (design items cdcl_returns_models / cdcl_infeasible_sound / "
+    "cdcl_fuel_suffices are open): the implementation's answers are judged per input by the verified checkers and "
+    "by the proved reference DPLL",
+    "heapq modelled as 'pop the least (-activity, var) entry'; VSIDS activities are IEEE doubles on both sides",
     "termination ('the solver always comes back') is observed as a wall-clock limit per call in a worker process "
     "(5 s for inputs that take milliseconds, 60 s for the budgeted hard families; a timeout is re-run alone with "
     "3x the limit before it is reported); the Luby loop's termination is proved on the regenerated source",
@@ -33,9 +36,8 @@ RULE = ("corpus + hand-written edge cases, then seeded families: random sample o
         "pigeonhole, random 3-XOR systems, graph colouring, CP-encoder style exactly-one grids, many-model "
         "enumerations (>2000 blocking clauses so reduce_db fires); assumptions none/random/contradictory/"
         "negated-pure-literal/variable-beyond-the-formula; solution_limit in {1,2,3,10,10^4}, luby_factor in {1,2,100}, "
-        "max_conflicts/max_restarts default or tiny. Non-trivial = an instrumented run of the reference DPLL on the "
-        "input made >= 1 branching on a non-unit clause and met >= 1 empty clause (conflict); distinct by canonical "
-        "(clauses, assumptions, options)")
+        "max_conflicts/max_restarts default or tiny. Non-trivial = the CDCL mirror's run on the input made >= 1 decision "
+        "and met >= 1 conflict; distinct by canonical (clauses, assumptions, options)")
 
 _DEFAULTS = None
 
@@ -288,7 +290,16 @@ def scope_cases(rng, nv, ncl, maxlen, per_formula, cap=None):
         forms = rng.sample(forms, cap)
     for f in forms:
         for _ in range(per_formula):
-            yield {"family": f"scope{nv}x{ncl}", "clauses": f, "assumptions": _assumptions(rng, f, nv), "opts": _opts(rng)}
+            yield normalize({"family": f"scope{nv}x{ncl}", "clauses": f, "assumptions": _assumptions(rng, f, nv),
+                             "opts": _opts(rng)})
+
+
+def normalize(case):
+    """keep the work of a correct solver small: all-models requests only for <= 13 variable indices (a blocking clause
+    per model makes 10^4 models of a 20-variable formula a matter of minutes in pure Python, legitimately)"""
+    if case["opts"].get("solution_limit", 1) > 10 and n_vars(case) > 13:
+        case["opts"]["solution_limit"] = 10
+    return case
 
 
 def generate(rng, n, tier, weights):
@@ -316,7 +327,7 @@ def generate(rng, n, tier, weights):
             out.append(gen_many_models(rng))
         else:
             raise KeyError(fam)
-    return out
+    return [normalize(c) for c in out]
 
 
 # ---------------------------------------------------------------------------
@@ -341,6 +352,8 @@ def impl(case):
 
 
 def is_hard(case):
+    if case["opts"].get("solution_limit", 1) > 10 and n_vars(case) >= 10:
+        return True
     return "max_conflicts" in case["opts"] and case["opts"]["max_conflicts"] >= 20 and case["family"] in (
         "planted3sat", "threshold3sat", "pigeonhole", "xor", "colouring")
 
@@ -392,7 +405,9 @@ def to_request(case, out):
         if r["solutions"]:
             multi = r["solutions"]
     nv = n_vars(case)
-    return ["case", case["clauses"], case["assumptions"], single, multi, bool(nv <= 12)]
+    d, o = defaults(), case["opts"]
+    prm = [int(o.get(k, d[k])) for k in ("max_conflicts", "max_restarts", "solution_limit", "luby_factor")]
+    return ["case", case["clauses"], case["assumptions"], single, multi, bool(nv <= 12), prm]
 
 
 # ---------------------------------------------------------------------------
@@ -403,7 +418,7 @@ def judge(case, out, reply):
     """All failed clauses of R_prop for one case as (property, class, text); plus notes (list of str) and
     the R_trace-level divergence (or None)."""
     fails, notes, tdiv = [], [], None
-    wf, sat, nv, count, s_chk, m_chk, distinct, br, cf, stat_ok = reply
+    wf, sat, nv, count, s_chk, m_chk, distinct, br, cf, stat_ok, mirror = reply
     if not stat_ok:
         raise core.Infra("instrumented DPLL disagrees with Sat.solve")
     if not wf:
@@ -432,8 +447,8 @@ def judge(case, out, reply):
         fails.append(("C01", "solution_not_a_dict", "Result.solution is neither None nor a dict"))
     # input feature that narrows the failure class (known findings are matched on it)
     lim = opts.get("solution_limit", d["solution_limit"])
-    feature = (":no_clauses" if not case["clauses"] else ":empty_clause" if [] in case["clauses"]
-               else ":enumeration" if lim > 1 else "")
+    feature = (":no_clauses" if not case["clauses"] else ":only_empty_clauses" if not any(case["clauses"])
+               else ":empty_clause" if [] in case["clauses"] else ":enumeration" if lim > 1 else "")
     # --- C01: every returned assignment is a model, pairwise distinct
     bad = [(k, c) for k, c in enumerate(s_chk) if not c[0]] + [(k, c) for k, c in enumerate(m_chk) if not c[0]]
     if bad:
@@ -467,7 +482,22 @@ def judge(case, out, reply):
         got = len(m_chk) if r["solutions"] is not None else len(s_chk)
         want = min(lim, count)
         if got != want:
-            tdiv = {"returned": got, "models": count, "solution_limit": lim}
+            tdiv = {"relation": "number of assignments returned with status OPTIMAL = min(solution_limit, number of "
+                    "models over 1..n_vars) [proved-complete enumerator]", "returned": got, "models": count,
+                    "solution_limit": lim}
+    # --- R_trace: the CDCL mirror returns the same status and the same assignments in the same order
+    m_status, m_sol, m_nsols, eq_single, eq_multi = mirror[:5]
+    if m_status == "FUEL":
+        raise core.Infra(f"CDCL mirror ran out of fuel on {case}")
+    same = (m_status == st and eq_single and eq_multi and (m_nsols is None) == (r["solutions"] is None))
+    if not same and tdiv is None:
+        tdiv = {"relation": "Sat.Cdcl mirror returns the same (status, solution, solutions)",
+                "mirror": {"status": m_status, "solution": m_sol, "n_solutions": m_nsols, "first_solutions": mirror[6]},
+                "solution_equal": eq_single, "solutions_equal": eq_multi}
+    chk, bad = mirror[7]
+    if bad and tdiv is None:
+        tdiv = {"relation": "every clause learned by the CDCL mirror is entailed by the clauses (+ earlier blocking "
+                "clauses) [verified entailsB]", "checked": chk, "not_entailed": bad}
     return fails, notes, tdiv
 
 
@@ -518,14 +548,24 @@ def run_cases(ctx, prop, cases, shrink=True):
                         case_r, o_r, rp_r, extra = c2, o2, rp2, {"shrunk_from": c}
             ctx.fail(FN, k, w, {"case": case_r, "impl": o_r, "model": _reply_doc(rp_r), **extra})
         if tdiv is not None and not fails:
-            ctx.tdiv(FN, {"case": c, "relation": "number of assignments returned with status OPTIMAL = "
-                          "min(solution_limit, number of models over 1..n_vars) [proved-complete enumerator]", **tdiv,
-                          "impl_status": o[1]["status"]})
-        elif rp[3] is not None and o[0] == "ok" and not fails:
+            ctx.tdiv(FN, {"case": c, **tdiv, "impl": {k: (v if k != "solutions" or not v or len(v) <= 5 else v[:5] + ["..."])
+                                                      for k, v in o[1].items()}})
+        elif o[0] == "ok" and not fails:
             ctx.cov["r_trace_agree"] = ctx.cov.get("r_trace_agree", 0) + 1
+            ms = rp[10][5]
+            if ms[0] == o[1]["decisions"] and ms[1] == o[1]["propagations"]:
+                ctx.cov["mirror_counters_agree"] = ctx.cov.get("mirror_counters_agree", 0) + 1
+            ctx.cov["mirror_max_fuel_used_permille"] = max(ctx.cov.get("mirror_max_fuel_used_permille", 0),
+                                                          (1000 * ms[5]) // max(1, ms[6]))
         if not mine:
             ctx.cov["r_prop_agree"] = ctx.cov.get("r_prop_agree", 0) + 1
-        ctx.case(canon(c), rp[7] >= 1 and rp[8] >= 1,
+        ctx.cov["learned_clauses_entailment_checked"] = ctx.cov.get("learned_clauses_entailment_checked", 0) + rp[10][7][0]
+        ms = rp[10][5]
+        ctx.count("mirror:conflicts>0" if ms[2] else "mirror:conflicts=0")
+        ctx.count("mirror:restarts>0" if ms[3] else "mirror:restarts=0")
+        if ms[4] >= 2000:
+            ctx.count("mirror:learned>=2000(reduce_db)")
+        ctx.case(canon(c), ms[0] >= 1 and ms[2] >= 1,
                  {"case": c if len(str(c)) < 1500 else {"family": c["family"], "n_vars": rp[2], "clauses": len(c["clauses"])},
                   "impl": ({k: (v if k not in ("solutions",) else (len(v) if v else v)) for k, v in o[1].items()}
                            if o[0] == "ok" else list(o)),
@@ -534,7 +574,9 @@ def run_cases(ctx, prop, cases, shrink=True):
 
 def _reply_doc(rp, brief=False):
     d = {"wf": rp[0], "dpll_sat": rp[1], "n_vars": rp[2], "model_count": rp[3], "distinct": rp[6],
-         "dpll_branchings": rp[7], "dpll_conflicts": rp[8]}
+         "dpll_branchings": rp[7], "dpll_conflicts": rp[8],
+         "mirror": {"status": rp[10][0], "n_solutions": rp[10][2], "solution_equal": rp[10][3], "solutions_equal": rp[10][4],
+                    "decisions,propagations,conflicts,restarts,learned,iterations,fuel": rp[10][5]}}
     if not brief:
         d["evalCnf_solution"] = rp[4]
         d["evalCnf_solutions"] = rp[5] if len(rp[5]) <= 50 else rp[5][:50] + ["..."]
@@ -617,14 +659,14 @@ def run_prop(ctx, prop, budget, weights, n_quick):
         chunks = [list(scope_cases(ctx.rng, 3, 3, 3, 2)), list(scope_cases(ctx.rng, 4, 4, 3, 1, cap=25_000))]
     else:
         chunks = [list(scope_cases(ctx.rng, 3, 3, 3, 1, cap=4000))]
-    n = n_quick * budget
+    n = n_quick if budget <= 1 else (n_quick * 5 * budget) // 8  # quick 8000, thorough 60000, search up to 6x
     per = 1500
     for k in range(0, n, per):
         chunks.append(generate(ctx.rng, min(per, n - k), ctx.tier, weights))
     # a small first chunk, so that a badly broken tree (calls that never return) is reported quickly
     chunks = [chunks[0][:300], chunks[0][300:]] + chunks[1:]
     import time
-    deadline = ctx.t0 + (75 if ctx.tier == "quick" else 800) * (2 if searching else 1)
+    deadline = ctx.t0 + (75 if ctx.tier == "quick" else 700) * (2 if searching else 1)
     for ch in chunks:
         if time.time() > deadline:
             ctx.notes.append(f"stopped early: time budget used up after {ctx.cov['evaluations']} cases "
